@@ -17,12 +17,12 @@ import minimise as M  # noqa
 
 PROPS = {
     # id: dict(level, quick runs, thorough seconds, variants quick, variants thorough, chunk)
-    "C06": dict(level="exploration", quick=2400, thorough_s=600, vq=["asan"], vt=["asan", "asan-vblas", "asan-i64"], chunk=25),
-    "C07": dict(level="exploration", quick=1600, thorough_s=600, vq=["asan"], vt=["asan", "asan-vblas", "asan-i64"], chunk=20),
-    "C08": dict(level="fault_enumeration", quick=160, thorough_s=900, vq=["asan"], vt=["asan", "asan-vblas", "asan-i64"], chunk=2),
-    "C09": dict(level="exploration", quick=1600, thorough_s=900, vq=["tsan", "asan"], vt=["tsan", "asan", "tsan-i64", "asan-vblas"], chunk=20),
-    "C19": dict(level="exploration", quick=2400, thorough_s=900, vq=["asan"], vt=["asan", "asan-vblas", "asan-i64"], chunk=25),
-    "C20": dict(level="exploration", quick=2000, thorough_s=600, vq=["asan", "tsan"], vt=["asan", "tsan", "asan-i64"], chunk=25),
+    "C06": dict(level="exploration", quick=24000, thorough_s=600, vq=["asan"], vt=["asan", "asan-vblas", "asan-i64"], chunk=25),
+    "C07": dict(level="exploration", quick=8000, thorough_s=600, vq=["asan"], vt=["asan", "asan-vblas", "asan-i64"], chunk=20),
+    "C08": dict(level="fault_enumeration", quick=320, thorough_s=900, vq=["asan"], vt=["asan", "asan-vblas", "asan-i64"], chunk=2),
+    "C09": dict(level="exploration", quick=10000, thorough_s=900, vq=["tsan", "asan"], vt=["tsan", "asan", "tsan-i64", "asan-vblas"], chunk=20),
+    "C19": dict(level="exploration", quick=24000, thorough_s=900, vq=["asan"], vt=["asan", "asan-vblas", "asan-i64"], chunk=25),
+    "C20": dict(level="exploration", quick=10000, thorough_s=600, vq=["asan", "tsan"], vt=["asan", "tsan", "asan-i64"], chunk=25),
 }
 PROP_NUM = {"C06": 6, "C07": 7, "C08": 8, "C09": 9, "C19": 19, "C20": 20}
 
@@ -365,6 +365,21 @@ def main():
         # gate: fresh-process replay, twice, must reproduce the same class
         k1, d1, rc1, e1 = run_replay(exe, casepath)
         k2, d2, rc2, e2 = run_replay(exe, casepath)
+        if variant.startswith("tsan") and not match_known(known, prop, key):
+            # ThreadSanitizer is not a memory-error detector: a heap overflow (known finding KF2) corrupts neighbouring blocks and shows
+            # up as a TSan report, a crash or a result mismatch depending on the heap layout. Ask the AddressSanitizer build what this
+            # case really does before judging it: if it is a recorded finding, it is reported as such.
+            av = "asan-i64" if variant.endswith("i64") else "asan"
+            if av not in exes:
+                exes[av] = B.build_variant(av)
+            ka, da, rca, ea = run_replay(exes[av], casepath)
+            kfa = [match_known(known, prop, k) for k in ka]
+            if any(kfa):
+                for f in kfa:
+                    if f:
+                        known_hits[f["id"]] = f
+                seen_keys.add(key)
+                continue
         if key not in k1 or key not in k2:
             if k1 != k2 or not k1:
                 log("MACHINERY ERROR: candidate %s of run %d does not reproduce on replay (%s / %s)" % (key, idx, sorted(k1), sorted(k2)))
